@@ -159,10 +159,8 @@ func (s *State) Delete(key StoreKey) (bool, error) {
 	if s.txSession != nil {
 		return s.txSession.Delete(key)
 	}
-	//cache delete is always true
-	_, _ = s.cache.Delete(key)
-
-	return true, nil
+	// a plain cache delete is always true; a gas-metered one can be refused
+	return s.cache.Delete(key)
 }
 
 // This only Iterate for the ChainState
